@@ -14,7 +14,7 @@ import math
 import struct
 import sys
 
-sys.setrecursionlimit(50000)
+sys.setrecursionlimit(200000)
 
 INT_MAX = 2147483647
 INT_MIN = -2147483648
